@@ -177,8 +177,35 @@ pub fn mem_reset_peak() -> usize {
     l
 }
 
+// C11 (hostile announced lengths): optional ceiling on ONE allocation request.  0 = no ceiling.  A request above
+// the ceiling is refused (null), which Rust turns into `handle_alloc_error` -> abort: the machine is never asked
+// for the gigabytes a forged header announces; the size of the refused request is kept for the report.
+static ONE_REQ_CAP: AtomicUsize = AtomicUsize::new(0);
+static BIGGEST_REQ: AtomicUsize = AtomicUsize::new(0);
+pub fn mem_set_request_cap(n: usize) {
+    ONE_REQ_CAP.store(n, Ordering::Relaxed);
+    BIGGEST_REQ.store(0, Ordering::Relaxed);
+}
+/// largest single request seen since the last `mem_set_request_cap`
+pub fn mem_biggest_request() -> usize {
+    BIGGEST_REQ.load(Ordering::Relaxed)
+}
+#[inline]
+fn refuse_request(n: usize) -> bool {
+    BIGGEST_REQ.fetch_max(n, Ordering::Relaxed);
+    let cap = ONE_REQ_CAP.load(Ordering::Relaxed);
+    cap != 0 && n > cap
+}
+
 unsafe impl GlobalAlloc for WatchAlloc {
     unsafe fn alloc(&self, layout: Layout) -> *mut u8 {
+        if refuse_request(layout.size()) {
+            return std::ptr::null_mut();
+        }
+        if let Some(p) = place::skew_alloc(layout, false) {
+            mem_add(layout.size());
+            return p;
+        }
         let p = System.alloc(layout);
         if !p.is_null() {
             mem_add(layout.size());
@@ -186,6 +213,13 @@ unsafe impl GlobalAlloc for WatchAlloc {
         p
     }
     unsafe fn alloc_zeroed(&self, layout: Layout) -> *mut u8 {
+        if refuse_request(layout.size()) {
+            return std::ptr::null_mut();
+        }
+        if let Some(p) = place::skew_alloc(layout, true) {
+            mem_add(layout.size());
+            return p;
+        }
         let p = System.alloc_zeroed(layout);
         if !p.is_null() {
             mem_add(layout.size());
@@ -196,10 +230,29 @@ unsafe impl GlobalAlloc for WatchAlloc {
         let seen = inspect(ptr, layout.size());
         commit(ptr as usize, seen);
         mem_sub(layout.size());
+        if place::skew_dealloc(ptr, layout) {
+            return; // a block z_place had handed out at a skewed address
+        }
         System.dealloc(ptr, layout)
     }
     unsafe fn realloc(&self, ptr: *mut u8, layout: Layout, new_size: usize) -> *mut u8 {
+        if refuse_request(new_size) {
+            return std::ptr::null_mut();
+        }
         let seen = inspect(ptr, layout.size());
+        if place::skew_owns(ptr) {
+            // a skewed block cannot be resized by the system allocator: move it to an ordinary block
+            let new = System.alloc(Layout::from_size_align_unchecked(new_size, layout.align()));
+            if new.is_null() {
+                return new;
+            }
+            std::ptr::copy_nonoverlapping(ptr as *const u8, new, layout.size().min(new_size));
+            mem_add(new_size);
+            mem_sub(layout.size());
+            commit(ptr as usize, seen);
+            place::skew_dealloc(ptr, layout);
+            return new;
+        }
         let new = System.realloc(ptr, layout, new_size);
         if !new.is_null() {
             // while a block grows both sizes can be live inside the system allocator; count the new
@@ -214,6 +267,10 @@ unsafe impl GlobalAlloc for WatchAlloc {
         new
     }
 }
+
+// placement variety (z_place) and the skewed 32-byte blocks it asks the allocator for
+#[path = "zplace.rs"]
+mod place;
 
 #[global_allocator]
 static GLOBAL: WatchAlloc = WatchAlloc;
@@ -235,6 +292,10 @@ fn watch_add(addr: usize, size: usize) {
         }
         st.overflow += 1;
     })
+}
+// is the block at addr still watched (i.e. not released since watch_add)?
+fn watch_has(addr: usize) -> bool {
+    with_state(|st| addr != 0 && st.watch.iter().any(|w| w.0 == addr))
 }
 fn rec_count() -> usize {
     with_state(|st| st.nrec)
@@ -583,6 +644,7 @@ pub fn run(a: &[&str]) -> String {
     match a[0] {
         "z_hist" => z_hist(a[1]),
         "z_api" => z_api(a),
+        "z_place" => place::z_place(a),
         _ => "outcome=badop".into(),
     }
 }
